@@ -189,7 +189,17 @@ def mixed(rng, maxlen=400):
 
 
 # property-wide alphabet restriction: no lone surrogates / NUL; only '\n' line ends
-BAD_LINE_ENDS = '\r\x0b\x0c\x1c\x1d\x1e\x85  '
+BAD_LINE_ENDS = '\r'          # the only other Markdown line ending; FF, VT, FS, GS, RS, NEL, LS, PS are ordinary characters
+SPLITLINES_ONLY = '\x0b\x0c\x1c\x1d\x1e\x85\u2028\u2029'     # where str.splitlines() splits although Markdown does not end a line
+
+
+def lines_of(text, keepends=True):
+    """The lines of ``text`` as Markdown sees them when '\\n' is the only line ending (never str.splitlines())."""
+    parts = text.split('\n')
+    if parts and parts[-1] == '':
+        parts.pop()
+        return [p + '\n' for p in parts] if keepends else parts
+    return [p + '\n' for p in parts[:-1]] + [parts[-1]] if keepends else parts
 
 
 def only_lf(text):
